@@ -29,7 +29,10 @@ const (
 
 var cutNames = []string{"none", "after-c2s", "drop-c2s", "after-s2c", "drop-s2c", "local-close", "reset", "server-close"}
 
-func c03Body(modes []sysMode, maxK int) func(x *X) {
+func c03Body(modes []sysMode, maxK int) func(x *X) { return c03BodyP("C03", modes, maxK) }
+
+// c03BodyP: the same body judged under another property (the keys carry its name; see the registrations)
+func c03BodyP(kp string, modes []sysMode, maxK int) func(x *X) {
 	return func(x *X) {
 		mode := modes[x.Choose(len(modes))]
 		kind := x.Choose(nCutKinds)
@@ -98,32 +101,32 @@ func c03Body(modes []sysMode, maxK int) func(x *X) {
 		for _, c := range []*ucall{gated, plain, ping} {
 			switch {
 			case !c.ret:
-				x.Fail("C03/caller-hangs/"+label, "call %d (%s) never returned after the connection ended (%s, k=%d, mode %s)", c.tag, formNames[c.form], label, k, mode.name)
+				x.Fail(kp+"/caller-hangs/"+label, "call %d (%s) never returned after the connection ended (%s, k=%d, mode %s)", c.tag, formNames[c.form], label, k, mode.name)
 				out += fmt.Sprintf(" %d:HANG", c.tag)
 			case c.err == nil:
 				if c.form != formPing && !eqBytes(c.reply, c.want()) {
-					x.Fail("C03/wrong-reply-after-cut", "call %d succeeded with a wrong reply %x", c.tag, c.reply)
+					x.Fail(kp+"/wrong-reply-after-cut", "call %d succeeded with a wrong reply %x", c.tag, c.reply)
 				}
 				out += fmt.Sprintf(" %d:ok", c.tag)
 			default:
 				if !ended && c.err == errInjectedWrite {
 					// the injected write failure of this very call
 				} else if !ended {
-					x.Fail("C03/error-without-loss", "call %d failed with %v although the connection was never cut", c.tag, c.err)
+					x.Fail(kp+"/error-without-loss", "call %d failed with %v although the connection was never cut", c.tag, c.err)
 				} else if !okErr(c.err) {
-					x.Fail("C03/unexpected-error/"+label, "call %d failed with %q; want ErrShutdown (or the error of its own failed write)", c.tag, c.err.Error())
+					x.Fail(kp+"/unexpected-error/"+label, "call %d failed with %q; want ErrShutdown (or the error of its own failed write)", c.tag, c.err.Error())
 				}
 				out += fmt.Sprintf(" %d:%s", c.tag, errStr(c.err))
 			}
 		}
 		if !stDone {
-			x.Fail("C03/newstream-hangs/"+label, "NewStream never returned (%s, k=%d)", label, k)
+			x.Fail(kp+"/newstream-hangs/"+label, "NewStream never returned (%s, k=%d)", label, k)
 		} else if stErr == nil {
 			if ended && !rdDone {
-				x.Fail("C03/stream-reader-hangs/"+label, "a ReadMessage blocked on a stream is still blocked after the connection ended (%s, k=%d)", label, k)
+				x.Fail(kp+"/stream-reader-hangs/"+label, "a ReadMessage blocked on a stream is still blocked after the connection ended (%s, k=%d)", label, k)
 			} else if rdDone && rdErr != rpc.ErrStreamShutdown && rdErr != rpc.ErrShutdown {
 				// (a message that was received just before the loss may be delivered together with ErrShutdown)
-				x.Fail("C03/stream-reader-error", "the blocked stream ReadMessage returned %v", rdErr)
+				x.Fail(kp+"/stream-reader-error", "the blocked stream ReadMessage returned %v", rdErr)
 			}
 		}
 		out += fmt.Sprintf(" stream:%s/%v", errStr(stErr), rdDone)
@@ -134,18 +137,18 @@ func c03Body(modes []sysMode, maxK int) func(x *X) {
 		endedNow := p.dead || p.reset || p.closed[0] || p.closed[1]
 		switch {
 		case !late.ret:
-			x.Fail("C03/late-call-hangs/"+label, "a call started after the connection ended blocks")
+			x.Fail(kp+"/late-call-hangs/"+label, "a call started after the connection ended blocks")
 		case ended && late.err != rpc.ErrShutdown:
-			x.Fail("C03/late-call-error/"+label, "a call started after the connection ended returned %v, want ErrShutdown", late.err)
+			x.Fail(kp+"/late-call-error/"+label, "a call started after the connection ended returned %v, want ErrShutdown", late.err)
 		case !ended && endedNow && late.err != nil && !okErr(late.err):
 			// the cut hit this very call
-			x.Fail("C03/unexpected-error/"+label, "the call during which the link was cut failed with %q", late.err.Error())
+			x.Fail(kp+"/unexpected-error/"+label, "the call during which the link was cut failed with %q", late.err.Error())
 		case late.err == errInjectedWrite:
 			// the injected write failure of this very call
 		case !endedNow && (late.err != nil || !eqBytes(late.reply, late.want())):
-			x.Fail("C03/late-call-failed-without-loss", "connection intact but a later call returned %v", late.err)
+			x.Fail(kp+"/late-call-failed-without-loss", "connection intact but a later call returned %v", late.err)
 		case late.err == nil && !eqBytes(late.reply, late.want()):
-			x.Fail("C03/wrong-reply-after-cut", "late call succeeded with a wrong reply")
+			x.Fail(kp+"/wrong-reply-after-cut", "late call succeeded with a wrong reply")
 		}
 		out += " late:" + errStr(late.err)
 		x.Outcome("%s", out)
@@ -236,4 +239,11 @@ func c03TransportClose(x *X) {
 
 func init() {
 	register(&Scenario{Prop: "C03", Name: "c03/transport-close-in-use", Quick: []Bound{{1, 0}}, Thorough: []Bound{{2, 0}}, Body: c03TransportClose, MaxSteps: 200000, BudgetQ: 25})
+}
+
+func init() {
+	// the same conversation judged for C02 (every call completes: none is left hanging by the teardown) and
+	// for C10 (the stream's blocked reader and later stream operations return)
+	register(&Scenario{Prop: "C02", Name: "c02/calls-and-stream-across-connection-loss", Quick: []Bound{{1, 0}}, Thorough: []Bound{{2, 0}}, Body: c03BodyP("C02", sysModes[:1], 5), OnlyKeys: []string{"C02/caller-hangs", "C02/late-call-hangs", "panic/", "hang/", "livelock/"}, BudgetQ: 25})
+	register(&Scenario{Prop: "C10", Name: "c10/stream-across-connection-loss", Quick: []Bound{{1, 0}}, Thorough: []Bound{{2, 0}}, Body: c03BodyP("C10", sysModes[:1], 5), OnlyKeys: []string{"C10/stream-reader-hangs", "C10/newstream-hangs", "C10/late-call-hangs", "panic/", "hang/", "livelock/"}, BudgetQ: 25})
 }
